@@ -47,6 +47,15 @@ CHECKS["C07"] = dict(
     note=NOTE_B, technique="z3 regex equivalence grammar vs statement language + SMT keyword/number lexer lemmas; CrossHair on parse() and "
     "the get_* query functions; counter-examples replayed concretely", design="§2 C07", engine="smt+crosshair")
 
+CHECKS["C02"] = dict(
+    text=LEVEL_TEXT_B + "blanks, line ends (LF/CRLF + indentation) and comments are single ignored/filtered tokens in every state where they "
+         "may occur, and the grammar language is closed under repeating line ends and semicolons (all lengths); plus " + LEVEL_TEXT_A +
+         " (differential: all 2^9 combinations of the listed rewrites on three base texts; real files through the real constructor: split "
+         "points x End spellings x BOM x line ends).",
+    note=NOTE_B + "; selector-only harness bodies run untraced once the selector is decoded (no symbolic input is left)",
+    technique="SMT lexer lemmas for blanks/line ends/comments + z3 regex closure queries on the captured grammar; CrossHair-driven "
+    "differential runs of the real constructor and parser on rewritten texts / packaged files", design="§2 C02", engine="smt+crosshair")
+
 PENDING_REASON = "check not built yet in this session (planned, see DESIGN.md §2); not claimed until its quick command runs clean"
 NA = {
     "C20": "quantifies over process histories, interpreter starts and PYTHONHASHSEED values of code that must run untraced "
